@@ -16,6 +16,7 @@ Tie to /repo: `harness/lib/encode_check.py` - byte equality of whole responses o
 every operation x version x outcome; `responseInRange` evaluated on every one of them.
 -/
 import KmipModel.Lemmas.Encode
+import KmipModel.Lemmas.EncodeRange
 namespace Kmip.C02Encode
 open Kmip Kmip.TTLV Kmip.Encode Kmip.Decode
 open Kmip.EngineResponse (bytesOf verPair)
@@ -97,10 +98,12 @@ bytes the server emits are well-formed TTLV and follow the response envelope.
 Hypotheses left: (1) `responseInRange` - the protocol version, the clock and the number of items fit their Integer /
 Date-Time fields, every operation / reason / enumeration value fits 32 bits, every Integer attribute value, index and
 Cryptographic Length fits 32 bits signed, dates 64 bits, the oracle subtrees are encodable, and the message is shorter
-than 2^32 bytes.  For Query / DiscoverVersions results and the string-only results it follows from the engine model
-(`query_in_range`, `discover_in_range`, `strings_in_range`); for the values read from STORED objects (Get,
-GetAttributes, the attribute echoed by Modify/DeleteAttribute) it follows from a range invariant of the store
-(`get_in_range`, `getAttrs_in_range`), which is itself a hypothesis. -/
+than 2^32 bytes.  The part of it that speaks about the DATA of a successful item is derived from the engine model
+(`item_data_in_range`): it holds for every operation in every engine state whose STORE is in range
+(`StoreInRange`: the stored enumeration values, lengths, masks, states, dates fit; at most 2^31 instances of a
+multi-valued attribute) - except for the attribute a KMIP 1.x ModifyAttribute echoes.  That `StoreInRange` is an
+invariant of serving requests whose values are in range is NOT proved: it stays a hypothesis, exercised by the
+harness (`inRange` is evaluated on every response of every correspondence run). -/
 theorem server_response_wellformed (c : Ctx) (e : Engine) (id : Identity) (req : Request)
     (extras : List (List TItem)) (bs : Bytes)
     (hb : responseBytes req.version c.now extras (processRequest c e id req).2 = some bs)
@@ -144,6 +147,22 @@ theorem discover_in_range (c : Ctx) (e : Engine) (vs : List Nat) (eff : Effect) 
 
 /-- the real server's list -/
 example : ∀ v ∈ Gen.supportedVersions, v < 21474836480 := by decide
+
+/-- **The data of every successful item is in range when the store is** (and the server's version list): Get,
+GetAttributes, GetAttributeList, the attribute DeleteAttribute echoes, Query, DiscoverVersions, every identifier-only
+answer, every cryptographic result; ModifyAttribute from KMIP 2.0 on. -/
+theorem item_data_in_range (c : Ctx) (e : Engine) (it : Kmip.Item) (eff : Effect) (d : Data)
+    (hs : StoreInRange e.store) (hv : ∀ v ∈ c.supportedVersions, v < 21474836480)
+    (hm : ∀ u a cu nw, it.payload = .modifyAttribute u a cu nw → 20 ≤ e.version)
+    (h : processOperation c e it = .ok (eff, d)) : dataInRange d = true :=
+  processOperation_in_range hs hv hm h
+
+/-- `StoreInRange` is satisfiable beyond the empty store: a store holding one AES key -/
+example : StoreInRange ⟨[{ (newObj OT.symmetricKey "00") with uid := 1, alg := some 3, len := some 128, format := some 1 }], 2⟩ := by
+  intro o ho
+  simp only [List.mem_singleton] at ho
+  subst ho
+  constructor <;> decide
 
 /-! ### the shapes fit -/
 
